@@ -114,6 +114,28 @@ func c11(r *Report) {
 				r.Fail("callgraph", fnName(f)+": gzip reader switched out of multistream mode", "a gzip-compressed message whose body consists of several gzip members is cut after the first member: the processor is shown a truncated message", nil, c.Pos())
 			}
 		}
+		// ... and no reader is capped: a message body is whatever the length prefix said, however far
+		// it inflates; a cap cuts the message silently (ReadAll sees a clean end of file)
+		nread := 0
+		for _, f := range w.Funcs("h2/grpc") {
+			for _, c := range calls(f, "io.LimitReader", "io.CopyN", "io.ReadFull", "io.ReadAtLeast", "io.NewSectionReader") {
+				r.Fail("callgraph", fnName(f)+": "+site(f, c)+" bounds how much of a message is read", "a message that decompresses to more than the bound is cut without an error: the processor and the destination are given a truncated message", nil, c.Pos())
+			}
+			for _, in := range instrs(f) {
+				if a, isA := in.(*ssa.Alloc); isA && strings.HasSuffix(a.Type().String(), "io.LimitedReader") {
+					r.Fail("callgraph", fnName(f)+": an io.LimitedReader bounds how much of a message is read", "a message that decompresses to more than the bound is cut without an error", nil, a.Pos())
+				}
+			}
+			for _, c := range plainCalls(f, "io/ioutil.ReadAll", "io.ReadAll") {
+				nread++
+				direct := anyIn(w.backSlice(c.Call.Args[0], flowOpt{}), func(l ssa.Value) bool {
+					return isCallValue(l, "compress/gzip.NewReader", "compress/flate.NewReader", "github.com/golang/snappy.NewReader", "bytes.NewReader", "bytes.NewBuffer") || isExtractOfCall(l, "compress/gzip.NewReader")
+				})
+				r.Sites++
+				r.Decide("flow", fnName(f)+": "+site(f, c)+" reads the decompressor itself", direct, "the reader derives from the codec's NewReader", "what ReadAll reads does not derive from the codec's reader: the message is not what was decoded", c.Pos())
+			}
+		}
+		r.Decide("callgraph", "the h2/grpc decoders read with ReadAll", nread >= 2, fmt.Sprintf("%d ReadAll sites", nread), "the decoders no longer read a message with ReadAll: the rule about capped readers has nothing to check", ad.Pos())
 		for _, n := range []string{"adapter.Data", "adapter.Header", "emitter.Message", "gunzip", "deflate"} {
 			errorsReturnedRule(r, r.W.Fn("h2/grpc", n), false)
 		}
@@ -918,6 +940,11 @@ func c11(r *Report) {
 		// end-of-stream exactly once and after the last message also depends on the relay
 		// putting END_STREAM on the right DATA fragment
 		endStreamOnLastFragmentRule(r)
+		// ... and on the relay emitting a frame whenever it fits the windows (a last DATA frame that
+		// exactly fills the window, END_STREAM with it, must not stay queued)
+		if emit := r.Use("h2", "outputBuffer.emitEligibleFrames"); emit != nil {
+			windowFitRules(r, emit)
+		}
 		// at the bottom of the reassembly loop, returning on an empty buffer must be excluded for the state
 		// "prefix read, length 0": the wait-for-more return must be control dependent on a.length / a.state
 		g := G(ad)
